@@ -37,7 +37,10 @@ var pgBuiltins = []string{"string", "int", "int64", "int32", "int16", "int8", "u
 	"byte", "rune", "bool", "float64", "float32"}
 var pgKeyBuiltins = []string{"string", "int", "int8", "uint8", "byte", "rune", "int64", "bool"}
 
-func pgPath(i int) string { return fmt.Sprintf("ex.test/p%d", i) }
+// pgPrefix is inserted into generated import paths (v1 histories share one GOPATH)
+var pgPrefix = ""
+
+func pgPath(i int) string { return fmt.Sprintf("ex.test/%sp%d", pgPrefix, i) }
 func pgName(i int) string { return fmt.Sprintf("p%d", i) }
 
 func (pg *progGen) ref(from int, n pgNamed) string {
